@@ -26,8 +26,8 @@ ASSUMPTIONS = ["CouponPayingSecurity(fixed_income=False) (market-value sizing wi
 
 def plan(tier):
     q = tier == "quick"
-    return [dict(unit="ops", n=700 if q else 20000, builds=["py", "so"], case_timeout=60),
-            dict(unit="stacks", n=350 if q else 10000, builds=["py", "so"], case_timeout=120)]
+    return [dict(unit="ops", n=700 if q else 8000, builds=["py", "so"], case_timeout=60),
+            dict(unit="stacks", n=350 if q else 4000, builds=["py", "so"], case_timeout=120)]
 
 
 def floors(tier):
